@@ -1,1 +1,4 @@
 //! Shared generators (decoders from the choice source).
+
+pub mod expr;
+pub mod ident;
